@@ -3,10 +3,11 @@
 # under /verif/seeded/<name>/ with meta.json: suite result, demo results, which checks caught it.
 set -u
 PID=$1; NAME=${2:-$PID}; EXTRA=${3:-}
-SRC=/tmp/wt-$PID/_seeded
-[ -f "$SRC/patch.diff" ] || { echo "no patch in $SRC"; exit 3; }
+# SEED_SRC / SEED_SUFFIX: round-2 agents deliver patchA.diff / demoA.py / noteA.txt in /tmp/wt2-Cnn/_seeded
+SRC=${SEED_SRC:-/tmp/wt-$PID/_seeded}; SFX=${SEED_SUFFIX:-}
+[ -f "$SRC/patch$SFX.diff" ] || { echo "no patch in $SRC"; exit 3; }
 DST=/verif/seeded/$NAME; mkdir -p "$DST"
-cp "$SRC/patch.diff" "$SRC/demo.py" "$DST/" 2>/dev/null; cp "$SRC/note.txt" "$DST/" 2>/dev/null
+cp "$SRC/patch$SFX.diff" "$DST/patch.diff"; cp "$SRC/demo$SFX.py" "$DST/demo.py"; cp "$SRC/note$SFX.txt" "$DST/note.txt" 2>/dev/null
 S=/var/tmp/verif-seed-$$; rm -rf "$S"; mkdir -p "$S/clean" "$S/mod"
 (cd /repo && git archive HEAD) | tar -x -C "$S/clean"; (cd /repo && git archive HEAD) | tar -x -C "$S/mod"
 cd "$S/mod" && git init -q . 2>/dev/null
